@@ -1414,7 +1414,7 @@ func layer2(V, T int) *layer {
 
 func buildLayers(tier string) []*layer {
 	if tier == "thorough" {
-		return []*layer{layer1(7), layer2(4, 2), layer2(3, 3)}
+		return []*layer{layer1(8), layer2(4, 2), layer2(3, 3)}
 	}
 	return []*layer{layer1(5), layer2(3, 2)}
 }
